@@ -132,14 +132,19 @@ EmitZeros(n) ==
 
 Copies(n, x) == [j \in 1..n |-> x]
 
+\* a sizer that counts an externally sized LIMITED array cannot exceed its limit
+SizerLimit(ms, j) ==
+    LET L == {ms[q].n : q \in {q \in 1..Len(ms) : ms[q].f = "limx" /\ ms[q].c = j}} IN
+    IF L = {} THEN 0 ELSE CHOOSE x \in L : \A y \in L : x <= y
+
 PartTasks(ms, p) ==
     LET m == ms[p.j] IN
     CASE p.r = "val"    -> << ValTask(m.t) >>
-      [] p.r = "sizer"  -> << Tk("cnt", m.t, 0, Base(env, m.t).w, p.j) >>
+      [] p.r = "sizer"  -> << Tk("cnt", m.t, SizerLimit(ms, p.j), Base(env, m.t).w, p.j) >>
       [] p.r = "opt"    -> << Tk("opt", m.t, p.a, 0, 0) >>
       [] p.r = "fixed"  -> Copies(m.n, ValTask(m.t))
       [] p.r = "cnt"    -> << Tk("cnt", Int(4), m.n, 4, p.j) >>
-      [] p.r = "arr"    -> << Tk("arr", m.t, 0, m.n, IF m.f = "ext" THEN m.c ELSE p.j) >>
+      [] p.r = "arr"    -> << Tk("arr", m.t, 0, m.n, IF m.f \in {"ext", "limx"} THEN m.c ELSE p.j) >>
       [] p.r = "greedy" -> << Tk("gre", m.t, 0, 0, 0) >>
 
 RECURSIVE TasksFrom(_, _, _)
